@@ -84,6 +84,9 @@ type C15Case struct {
 	// trailing container filter and the handler
 	Middleware bool     `json:"middleware,omitempty"`
 	Ops        []RespOp `json:"ops"`
+	// Plain: the target is a plain http.Handler registered with HandleWithFilter and reached
+	// through ServeHTTP; it only knows http.ResponseWriter (WriteHeader for the first call, Write)
+	Plain bool `json:"plain,omitempty"`
 }
 
 type c15Entity struct {
@@ -116,6 +119,7 @@ func genC15(t *rapid.T) C15Case {
 		c.Ops = append(c.Ops, RespOp{Call: "Write", Size: rapid.SampledFrom([]int{0, 1, 2, 7, 20, 64, 1000, 70000}).Draw(t, "writesize")})
 	}
 	c.Middleware = rapid.IntRange(0, 3).Draw(t, "middleware") == 0
+	c.Plain = rapid.IntRange(0, 5).Draw(t, "plainhandler") == 0
 	c.FailPos = -1
 	if c.Encoding == "" && rapid.IntRange(0, 2).Draw(t, "fails") > 0 {
 		c.FailPos = rapid.IntRange(0, 1050).Draw(t, "failpos")
@@ -211,6 +215,27 @@ func runC15(c C15Case, failAt int) (cw *countingWriter, obs c15Obs, vs []*Violat
 	}))
 	ct.Add(ws)
 	req := model.ReqSpec{Method: "GET", Path: "/x"}
+	if c.Plain {
+		req.Path = "/plain/x"
+		ct.HandleWithFilter("/plain/", http.HandlerFunc(func(w http.ResponseWriter, r *http.Request) {
+			for i, op := range c.Ops {
+				errsBefore, accBefore := cw.errs, cw.accepted
+				if op.Call != "Write" {
+					w.WriteHeader(op.Status)
+					continue
+				}
+				n, err := w.Write(payload(op.Size, i))
+				if c.Encoding == "" {
+					if cw.errs > errsBefore && err != errInjected && !errors.Is(err, errInjected) {
+						vs = append(vs, viol("", "op#%d Write of a plain handler: the underlying writer failed during this call (accepting %d of its bytes) but the call returned %v", i, cw.accepted-accBefore, err))
+					}
+					if n != cw.accepted-accBefore {
+						vs = append(vs, viol("", "op#%d Write of a plain handler: returned n=%d, the underlying writer accepted %d", i, n, cw.accepted-accBefore))
+					}
+				}
+			}
+		}))
+	}
 	if c.Accept != "" {
 		req.Headers = append(req.Headers, model.H{K: "Accept", V: c.Accept})
 	}
@@ -220,6 +245,10 @@ func runC15(c C15Case, failAt int) (cw *countingWriter, obs c15Obs, vs []*Violat
 	hr := harness.NewHTTPRequest(req, "0")
 	func() {
 		defer func() { panicked = recover() }()
+		if c.Plain {
+			ct.ServeHTTP(cw, hr)
+			return
+		}
 		ct.Dispatch(cw, hr)
 	}()
 	return
@@ -302,6 +331,9 @@ func checkC15(c C15Case) (vs []*Violation) {
 				labels = append(labels, "multi_write_entity")
 			}
 		}
+	}
+	if c.Plain {
+		labels = append(labels, "plain_handler_behind_HandleWithFilter")
 	}
 	if obs.status == 406 {
 		labels = append(labels, "entity_writer_406")
